@@ -940,8 +940,13 @@ def tasks(tier, seed):
                 for budget in budgets:
                     if tier == 'quick' and (pset, ri, budget) in (('D', 1, 1.0), ('B', 0, 10.0)):
                         continue  # quick: 6 of the 8 (parameter set, row, budget) combinations
+                    use = quick_labs
+                    if tier == 'quick' and cfg['variant'] == 'translated' and cfg['og'] is not None:
+                        # the library needs ~1070 bisection steps (50 ms) whenever only the outside good is consumed:
+                        # quick keeps 6 of the 12 labelings for this configuration, thorough all of them
+                        use = [quick_labs[i] for i in (0, 3, 4, 6, 9, 10)]
                     for e0 in firsts:
-                        t.append(dict(part='f', cfg=cfg, pset=pset, row=ri, labs=quick_labs, budgets=[budget],
+                        t.append(dict(part='f', cfg=cfg, pset=pset, row=ri, labs=use, budgets=[budget],
                                       draws=[[e0] + tl for tl in tails], seed=seed, bf_labs=[0]))
     # thorough: the whole pool of labelings on the quick grid; every chunk starts with the natural labeling so
     # that the labeling differential always has the same anchor
